@@ -72,6 +72,27 @@ type ScriptedSubscriber struct {
 	nSub           int
 }
 
+// ErrScriptedSubscribe is what a scripted failing Subscribe returns.
+var ErrScriptedSubscribe = errors.New("scripted subscribe error")
+
+// DeliveryFor finds the delivery a message stands for: the emitted object itself, or (for components that pass on an
+// equal copy) the latest delivery with the same UUID, an unsettled one first.
+func (s *ScriptedSubscriber) DeliveryFor(m *message.Message) *Delivery {
+	if d := s.ByMsg[m]; d != nil {
+		return d
+	}
+	var found *Delivery
+	for _, d := range s.Deliveries {
+		if d.Msg.UUID != m.UUID {
+			continue
+		}
+		if found == nil || !d.Settled() || found.Settled() {
+			found = d
+		}
+	}
+	return found
+}
+
 func NewScriptedSubscriber(r *Run, name string) *ScriptedSubscriber {
 	return &ScriptedSubscriber{R: r, Name: name, Script: map[string][]ScriptMsg{}, Lanes: 1, MaxRedeliver: 6,
 		Subscribes: map[string]int{}, closing: make(chan struct{}), ByMsg: map[*message.Message]*Delivery{}}
@@ -81,7 +102,7 @@ func (s *ScriptedSubscriber) Subscribe(ctx context.Context, topic string) (<-cha
 	s.nSub++
 	s.Subscribes[topic]++
 	if s.SubscribeErrAt == s.nSub {
-		return nil, errors.New("scripted subscribe error")
+		return nil, ErrScriptedSubscribe
 	}
 	if s.closed {
 		return nil, errors.New("scripted subscriber closed")
